@@ -434,4 +434,12 @@ def trailing(ctx, P):
             gs = guard_switches(b, oks, [r'call:.*check_trailing_data$'])
             ctx.check(P + ':trailing:%s' % r['name'], 'R-dom', 'Message::%s propagates the trailing-data check' % r['name'], bool(gs), function=b.path,
                       guards=[site(b, g) for g, _ in gs])
-    ctx.floor(P + ':trailing:floor', 'Message Read/BufRead methods calling check_trailing_data', n, 2)
+    ctx.floor(P + ':trailing:floor', 'Message Read/BufRead methods calling check_trailing_data', n, 3)
+    # sibling rule: all three consumer paths of Message (read, read_to_end, fill_buf) carry the check
+    have = set()
+    for p, r in ctx.f.bodies.items():
+        if r.get('impl_self', '').startswith('composed::message::types::Message<') and r.get('impl_trait') in ('std::io::Read', 'std::io::BufRead') \
+                and ctx.wrap(r).calls(r'check_trailing_data$'):
+            have.add(r.get('name'))
+    ctx.check(P + ':trailing:all-consumer-paths', 'R-sib', 'read, read_to_end and fill_buf of Message all end through check_trailing_data (no consumer path reports a clean end over trailing data)',
+              {'read', 'read_to_end', 'fill_buf'} <= have, table=sorted(have), missing=sorted({'read', 'read_to_end', 'fill_buf'} - have) or None)
